@@ -1292,12 +1292,16 @@ func htmlEscapeSeesEveryByte(p *Prog, r *Report) {
 		}
 		covered := false
 		for _, g := range guardsOfDepth(b, 0) {
-			bo, ok := g.Cond.(*ssa.BinOp)
-			if !ok {
-				continue
+			var c *ssa.Call
+			switch w := g.Cond.(type) {
+			case *ssa.BinOp:
+				c, _ = w.X.(*ssa.Call) // IndexAny(s, set) < 0
+			case *ssa.Call:
+				if !g.Pol {
+					c = w // !ContainsAny(s, set)
+				}
 			}
-			c, ok := bo.X.(*ssa.Call)
-			if !ok || c.Call.StaticCallee() == nil || !(strings.HasSuffix(c.Call.StaticCallee().Name(), "IndexAny") || strings.HasSuffix(c.Call.StaticCallee().Name(), "ContainsAny")) || len(c.Call.Args) != 2 {
+			if c == nil || c.Call.StaticCallee() == nil || !(strings.HasSuffix(c.Call.StaticCallee().Name(), "IndexAny") || strings.HasSuffix(c.Call.StaticCallee().Name(), "ContainsAny")) || len(c.Call.Args) != 2 {
 				continue
 			}
 			set, ok := stringConst(c.Call.Args[1])
